@@ -1,13 +1,13 @@
 #!/bin/bash
 # usage: tools/try_seed.sh <diff> <prop> [<prop> ...]
-# Applies a seeded change to /repo's working tree, runs the quick checks of the listed
-# properties (evidence redirected to a scratch directory), and restores the tree.
-D="$1"; shift
-cd /repo || exit 2
-git diff --quiet || { echo "/repo working tree is not clean"; exit 2; }
-git apply "$D" || { echo "patch does not apply"; exit 2; }
-trap 'git -C /repo checkout -- . ; rm -rf /tmp/ev_seed' EXIT
+# Applies a seeded change to a scratch worktree of /repo (never to /repo itself), runs the quick
+# checks of the listed properties against it (evidence redirected), and removes the worktree.
+D="$(readlink -f "$1")"; shift
+W=$(mktemp -d /tmp/tryseed_XXXX); rmdir "$W"
+git -C /repo worktree add -q --detach "$W" HEAD || exit 2
+trap 'git -C /repo worktree remove --force "$W"; rm -rf /tmp/ev_seed_$$' EXIT
+git -C "$W" apply "$D" || { echo "patch does not apply"; exit 2; }
 cd /verif
 for p in "$@"; do
-  ./check "$p" --evidence-dir /tmp/ev_seed 2>&1 | grep -E "^FAILED|^VIOLATION|^OK|^ANALYSIS-ERROR" | cut -c1-330
+  ./check "$p" --repo "$W" --evidence-dir /tmp/ev_seed_$$ 2>&1 | grep -E "^FAILED|^VIOLATION|^OK|^ANALYSIS-ERROR" | cut -c1-330
 done
